@@ -38,6 +38,9 @@ type simPKI struct {
 	ClientDeep        map[string]*kit.Cert
 	ServerUnderLeaf   map[string]*kit.Cert // leaf signed by the key of an end-entity certificate (Server["p256"])
 	ClientUnderLeaf   map[string]*kit.Cert
+	ServerCNOnly      map[string]*kit.Cert // CN = server name, subjectAltName present but without any dNSName (an IP address only)
+	ServerOddEKU      map[string]*kit.Cert // extended key usage lists a private OID only
+	ClientOddEKU      map[string]*kit.Cert
 	RootPool, BadPool *zx509.CertPool
 	InterPool         *zx509.CertPool
 }
@@ -85,6 +88,7 @@ func pki() *simPKI {
 		}
 		p.DeepCA = kit.MakeCert(kit.CertSpec{Name: "CA below a pathlen-0 CA", Key: "p256_12", IsCA: true, MaxPathLen: -1, Issuer: p.Inter, Serial: 6})
 		p.ServerDeep, p.ClientDeep, p.ServerUnderLeaf, p.ClientUnderLeaf = map[string]*kit.Cert{}, map[string]*kit.Cert{}, map[string]*kit.Cert{}, map[string]*kit.Cert{}
+		p.ServerCNOnly, p.ServerOddEKU, p.ClientOddEKU = map[string]*kit.Cert{}, map[string]*kit.Cert{}, map[string]*kit.Cert{}
 		n = 200
 		for _, kind := range []string{"rsa", "p256", "p384", "ed"} {
 			n += 10
@@ -92,6 +96,9 @@ func pki() *simPKI {
 			p.ClientDeep[kind] = kit.MakeCert(kit.CertSpec{Name: "client-" + kind, Key: clientKeyOfKind[kind], Issuer: p.DeepCA, Serial: n + 1, ClientAuth: true})
 			p.ServerUnderLeaf[kind] = kit.MakeCert(kit.CertSpec{Name: serverName, Key: keyOfKind[kind], Issuer: p.Server["p256"], DNSNames: []string{serverName}, Serial: n + 2})
 			p.ClientUnderLeaf[kind] = kit.MakeCert(kit.CertSpec{Name: "client-" + kind, Key: clientKeyOfKind[kind], Issuer: p.Server["p256"], Serial: n + 3, ClientAuth: true})
+			p.ServerCNOnly[kind] = kit.MakeCert(kit.CertSpec{Name: serverName, Key: keyOfKind[kind], Issuer: p.Inter, IPs: []net.IP{net.ParseIP("10.9.9.9")}, Serial: n + 4})
+			p.ServerOddEKU[kind] = kit.MakeCert(kit.CertSpec{Name: serverName, Key: keyOfKind[kind], Issuer: p.Inter, DNSNames: []string{serverName}, Serial: n + 5, UnknownEKU: true})
+			p.ClientOddEKU[kind] = kit.MakeCert(kit.CertSpec{Name: "client-" + kind, Key: clientKeyOfKind[kind], Issuer: p.Inter, Serial: n + 6, UnknownEKU: true})
 		}
 		p.RootPool = zx509.NewCertPool()
 		p.RootPool.AddCert(zparse(p.Root.DER))
